@@ -187,7 +187,7 @@ def function_cases(ctx):
                     body.extend(chunk)
                 else:
                     break
-        except ValueError:
+        except (ValueError, httping.HTTPException):   # malformed chunk (class depends on C32's fix)
             status = -2
         lit = "(%s, %s)" % ((clist([cz(0)] + [cz(b) for b in body], "Z"), cbytes(bytes(buf))) if status == 0
                             else (clist([cz(status)], "Z"), cbytes(b"")))
